@@ -301,6 +301,53 @@ fn check(seq: &Seq, as_call: bool, st: &mut Stats) {
     }
 }
 
+/// Long sequences: every size n of `scale::sizes`, four separator patterns, an absent element or a
+/// nested group at chosen positions, effects in every element.
+fn scaling(thorough: bool) -> Stats {
+    super::on_big_stack(move || {
+        let mut st = Stats::new();
+        for n in super::scale::sizes(thorough) {
+            let patterns: Vec<Vec<bool>> = vec![
+                vec![false; n],                                  // one long tuple
+                vec![true; n],                                   // one long chain
+                (0..n).map(|i| i % 2 == 1).collect(),            // a, b; c, d; ...
+                (0..n).map(|i| i % 5 == 4).collect(),            // tuples of five chained
+                (0..n).map(|i| i % 7 != 6).collect(),            // chains with a tuple at every seventh
+            ];
+            let positions: Vec<usize> = if n <= 20 { (0..=n).collect() } else { vec![0, 1, n / 2, n - 1, n] };
+            for seps in &patterns {
+                // plain literals
+                let base = Seq {
+                    seps: seps.clone(),
+                    elems: (0..=n).map(|i| Elem::Lit(i as i64)).collect(),
+                };
+                check(&base, false, &mut st);
+                check(&base, true, &mut st);
+                // effects everywhere: a += i after a first assignment
+                let mut eff = base.clone();
+                eff.elems[0] = Elem::Assign("a", 0);
+                for i in 1..=n {
+                    eff.elems[i] = Elem::AddAssign("a", i as i64);
+                }
+                check(&eff, false, &mut st);
+                for &k in &positions {
+                    let mut s1 = base.clone();
+                    s1.elems[k] = Elem::Empty;
+                    check(&s1, false, &mut st);
+                    let mut s2 = base.clone();
+                    s2.elems[k] = Elem::Group(Seq {
+                        seps: vec![false, true],
+                        elems: vec![Elem::Lit(7), Elem::Assign("b", k as i64), Elem::Read("b")],
+                    });
+                    check(&s2, false, &mut st);
+                    st.count("scaling-family-sequences");
+                }
+            }
+        }
+        st
+    })
+}
+
 pub fn run(cfg: &Cfg) -> Report {
     let (n_simple, n_group, n_call) = cfg.tier.pick((4, 3, 3), (6, 4, 4));
     let nested = true;
@@ -354,6 +401,7 @@ pub fn run(cfg: &Cfg) -> Report {
         }
         st
     });
+    stats.merge(scaling(cfg.tier == Tier::Thorough));
     for s in ["1, 2; 3", "1; 2, 3; 4", "a = 1; a, 2; a += 10", ", ; ,", "(b = 6, ; 7); , a = 3", "f(1, ; 2)"] {
         let t = build_operator_tree::<evalexpr::DefaultNumericTypes>(s);
         stats.sample(json!({"source": s, "tree": t.as_ref().map(|t| node_to_nt(t).show()).map_err(|e| format!("{:?}", e)), "value": format!("{:?}", evalexpr::eval(s))}));
@@ -365,7 +413,7 @@ pub fn run(cfg: &Cfg) -> Report {
     Report {
         property: ID,
         level: "exploration",
-        rule: format!("every separator skeleton in {{',', ';'}}^n, n <= {n_simple}, with every filling of the n+1 slots from {{absent, literal, `a = k`, read of a, `a += k`}}; the same for n <= {n_call} as the argument of a recording function f(...); for n <= {n_group} every skeleton with one slot (each position) holding each of {ngroups} parenthesised nested sequences (depth <= 2) and the other slots from {{absent, literal, assignment}}; and skeletons over {{absent, `()`, literal}}. Non-trivial = mixes both separators; each source is enumerated once"),
+        rule: format!("every separator skeleton in {{',', ';'}}^n, n <= {n_simple}, with every filling of the n+1 slots from {{absent, literal, `a = k`, read of a, `a += k`}}; the same for n <= {n_call} as the argument of a recording function f(...); for n <= {n_group} every skeleton with one slot (each position) holding each of {ngroups} parenthesised nested sequences (depth <= 2) and the other slots from {{absent, literal, assignment}}; and skeletons over {{absent, `()`, literal}}; plus scaling families: sequences of every size 1..20 and up to 129 (quick) / 1..40 and up to 400 (thorough) in five separator patterns, with literals, with an effect in every element, and with an absent element or a nested group at chosen positions. Non-trivial = mixes both separators; each source is enumerated once"),
         nontrivial_set: "counter:nontrivial-distinct",
         exhaustive: true,
         bound_completed: format!("{n_simple} separators (simple elements), {n_group} with nested groups"),
